@@ -22,7 +22,32 @@ def method_segments(an, cm, roles, m, res=None):
         res.count('paths_pruned_infeasible', len(pruned))
         for s, why in pruned[:1]:
             res.counts.setdefault('_pruned_reasons', set()).add(why)
+        if roles.kind != 'maplist':
+            note = walking_iterator_slot(keep)
+            if note is not None:
+                msg = ('G-UNKNOWN slot named through a loop-carried iterator (%s): walking an auxiliary structure node by node is not '
+                       'modelled for the caches in %s reached from %s::%s' % (note[0], show_site(note[1]), cm.name, m.key()))
+                if msg not in res.incomplete:
+                    res.incomplete.append(msg)
     return keep
+
+
+def walking_iterator_slot(tops):
+    """(term, site) of a slot that some effect names only through `*it` with `it` a loop-carried local iterator, else None"""
+    def has_lv_deref(t, depth=0):
+        if not isinstance(t, tuple) or depth > 12:
+            return False
+        if t and t[0] == 'deref' and len(t) > 1 and isinstance(t[1], tuple) and t[1] and t[1][0] == 'lv':
+            return True
+        return any(has_lv_deref(x, depth + 1) for x in t if isinstance(x, tuple))
+    for top in tops:
+        for seg in top.all_segments():
+            for e in seg.effects:
+                ent = getattr(e, 'ent', None)
+                if isinstance(ent, Ent) and ent.kind == 'OTHER' and e.kind in ('UNBIND', 'BIND', 'VAL', 'AUX_DEL', 'AUX_ADD', 'MOVE', 'BACKPTR', 'DEADLINE') \
+                        and has_lv_deref(getattr(ent, 'term', None)):
+                    return show(ent.term), e.site
+    return None
 
 
 def site_of_seg(seg, m):
@@ -432,6 +457,16 @@ def balance_of(seg, roles):
     out['index'] = sum(1 for e in effs if e.kind == 'BIND') - sum(1 for e in effs if e.kind == 'UNBIND')
     if roles.part is not None:
         out['partition'] = net(effs, 'PART')
+        if out['partition'] is None and roles.order is not None:
+            # the partition was assigned a node's position (`m_end = e.m_lru_position` after splicing e in front of the free
+            # region): the list-position domain knows how many nodes it moved over
+            try:
+                from rules_pos import simulate
+                sim = simulate(seg, roles)
+                if not sim.unknown and not getattr(sim, 'infeasible', False) and sim.pnet is not None:
+                    out['partition'] = sim.pnet
+            except Exception:
+                pass
     for a in roles.aux_kind:
         out['aux:' + a] = (sum(1 for e in effs if e.kind == 'AUX_ADD' and e.aux == a)
                            - sum(1 for e in effs if e.kind == 'AUX_DEL' and e.aux == a))
@@ -606,9 +641,11 @@ def check_observer(res, prop, cm, roles, m, top):
         ok = isinstance(r, tuple) and r[0] == 'q' and r[1] == 'size' and r[2] == L.index and (r[4] or 0) == 0
         if roles.counter is not None:
             ok = ok or r == ld0(THIS(roles.counter))     # |index| == counter is part of RI (R-BALANCE): either is truthful
-    elif m.name == 'empty' and isinstance(r, tuple) and r[0] == 'bool' and top.cond('NONEMPTY') is not None:
+    elif m.name == 'empty' and isinstance(r, tuple) and r[0] == 'bool' and top.conds and all(lift.emptiness(c) is not None for c in top.conds):
+        # decided by tests that each say whether anything is stored (counter, index / auxiliary size, partition at the head: one fact, RI)
         want = 'counter == 0'
-        ok = r[1] == (not top.cond('NONEMPTY')) and len([c for c in top.conds if c[0] not in ('NONEMPTY',)]) == 0
+        vals = set(lift.emptiness(c) for c in top.conds)
+        ok = len(vals) == 1 and r[1] == (not next(iter(vals)))
     elif m.name == 'empty':
         want = 'counter == 0'
         cnt = ld0(THIS(roles.counter)) if roles.counter else None
@@ -624,6 +661,11 @@ def check_observer(res, prop, cm, roles, m, top):
                 ok = (a == cnt)      # used <= 0  <=> used == 0 for unsigned
         elif isinstance(r, tuple) and r[0] == 'q' and r[1] == 'empty' and r[2] == L.index:
             ok = True
+        if not ok and isinstance(r, tuple) and r and r[0] in ('cmp', 'not'):
+            kind, args, pol = L.classify(r[1] if r[0] == 'not' else r)
+            if r[0] == 'not':
+                pol = not pol
+            ok = lift.emptiness((kind, args, pol)) is False      # returns true exactly when the tested fact says "nothing stored"
     elif m.name == 'capacity':
         want = 'size of the fixed slot storage'
         caps = [x for x in (L.slots, L.order, L.perm) if x is not None]
@@ -649,8 +691,7 @@ def check_ctor_capacity(an, res, prop, cm, roles):
         for e in p.trace:
             if e[0] == 'init' and e[1] == THIS(capf):
                 site = e[3]
-                v = e[2]
-                ok = isinstance(v, tuple) and v[0] == 'ctor' and len(v[2]) >= 1 and v[2][0] == ('p', 'capacity')
+    ok = ops.ctor_sizes_field(paths, THIS(capf))
     res.ob('R-CAPACITY-CTOR', ok=ok)
     if not ok:
         V(res, prop, 'R-CAPACITY-CTOR', cm, ctor.key(), 'constructor does not size %s with the capacity argument' % capf,
@@ -694,6 +735,19 @@ def check_purge_first(res, prop, cm, roles, m, top):
                 if not seen_q:
                     ok = True
                 break
+    if not ok and first_purge is None and q_before is None:
+        # two-pass purge, first pass found nothing: a scan loop walked the expired prefix and the path established that its
+        # boundary is still the head of the ttl list (no expired node), before the index was touched
+        bounds = ops.scan_boundaries(top)
+        scan_pos = {lp.id: pos for pos, (k, i) in enumerate(top.order) if k == 'loop' for lp in [top.loops[i][0]]}
+        for pos, (k, i) in enumerate(top.order):
+            if first_touch is not None and pos >= first_touch:
+                break
+            if k == 'cond' and top.conds[i][0] == 'IT_AT_BEGIN' and top.conds[i][2] is True:
+                a0 = top.conds[i][1][0]
+                if isinstance(a0, tuple) and len(a0) > 2 and a0[0] == 'lv' and (a0[1], a0[2]) in bounds and scan_pos.get(a0[2], 10 ** 9) < pos:
+                    ok = True
+                    break
     # the purge (and every deadline written) uses a clock sample of the atomic step itself: in ut_map/ut_set the ttl list is
     # appended in lock order, so it is deadline-sorted only if clock samples are taken in lock order too, and "size() ==
     # live keys immediately after the call" needs the purge time to be inside the step, not before a wait for the mutex
